@@ -155,13 +155,13 @@ Theorem C05_indices_checked : forall (c : cfg) (st : sstate) (now : N) (from : a
   (forall ch, (0 <= Z.of_N (b32_8to5 ch) <= 31)%Z) /\
   (forall b, b < 256 -> (-128 <= schar b <= 127)%Z).
 Proof.
-  intros c st now from. split; [apply check_user_in_range|]. split; [|split; [|split; [|split; [|split]]]].
-  - intros userid H. eapply check_user_in_range, (check_auth_user _ _ _ _ _ H).
-  - intros userid H. apply check_auth_options_auth in H. eapply check_user_in_range, (check_auth_user _ _ _ _ _ H).
-  - intros ip t H. apply find_user_by_ip_receiver in H. apply H.
-  - intros t H. apply find_available_from_spec in H. lia.
-  - exact b32_userid_range.
-  - exact schar_range_byte.
+  intros c st now from.
+  split; [intros userid H; eapply check_user_in_range, H|].
+  split; [intros userid H; eapply check_user_in_range, (check_auth_user _ _ _ _ _ H)|].
+  split; [intros userid H; apply check_auth_options_auth in H; eapply check_user_in_range, (check_auth_user _ _ _ _ _ H)|].
+  split; [intros ip t H; apply find_user_by_ip_receiver in H; apply H|].
+  split; [intros t H; apply find_available_from_spec in H; lia|].
+  split; [exact b32_userid_range|exact schar_range_byte].
 Qed.
 Print Assumptions C05_indices_checked.
 
